@@ -7,13 +7,28 @@ use vstd::std_specs::cmp::*;
 /// IndexMap<String, Schema>: the named schemas a parameter's schema may refer to; reached only through type_resolve
 #[verifier::external_body]
 pub struct SchemaDeps { _p: u8 }
-/// type_resolve (a loop that follows pure `$ref` schemas through the dependencies, with cycle detection; it panics
-/// on a cycle or a dangling reference): the schema the references lead to
-pub uninterp spec fn resolved(s: JSchema, d: SchemaDeps) -> JSchema;
+/// IndexMap<String, Schema>::get(&reference[PREFIX.len()..]): the schema a reference names in the dependency map, if any
+pub uninterp spec fn deps_lookup(d: SchemaDeps, reference: Seq<char>) -> Option<JSchema>;
+/// `dependencies.get(&ref_schema[PREFIX.len()..]).unwrap_or_else(|| panic!(..))` (W1): the schema the reference names;
+/// a dangling reference panics (no result)
 #[verifier::external_body]
-pub fn type_resolve<'a>(schema: &'a JSchema, dependencies: &'a SchemaDeps) -> (r: &'a JSchema)
-    ensures *r == resolved(*schema, *dependencies)
+pub fn deps_get_or_panic<'a>(dependencies: &'a SchemaDeps, ref_schema: &String) -> (r: &'a JSchema)
+    ensures deps_lookup(*dependencies, ref_schema@) == Some(*r)
 { unimplemented!() }
+/// `ref_schema.starts_with("#/components/schemas/")`: only guards an `assert!` (a foreign prefix panics: no result)
+#[verifier::external_body]
+pub fn has_schema_prefix(s: &String) -> bool { unimplemented!() }
+/// the HashSet<&String> of references already followed: only decides whether the function panics on a cycle
+#[verifier::external_body]
+pub struct RefSet { _p: u8 }
+impl RefSet {
+    #[verifier::external_body] pub fn new() -> RefSet { unimplemented!() }
+    #[verifier::external_body] pub fn contains(&self, s: &String) -> bool { unimplemented!() }
+    #[verifier::external_body] pub fn insert(&mut self, s: &String) -> bool { unimplemented!() }
+}
+/// W9b: the panics of type_resolve (cycle, dangling or foreign reference): the function does not return
+#[verifier::external_body]
+pub fn never_returns() -> ! { panic!() }
 /// `slice.iter().all(f)` (W1: written as a function call): true iff f returned true on every element (f is evaluated
 /// until it first returns false)
 #[verifier::external_body]
